@@ -16,6 +16,9 @@ pub enum OpKind {
     NewBoxed,
     /// a=[dst, src] → clone_dyn
     CloneDyn,
+    /// a=[dst, hkind(0 MBI header,1 MB2 header,2 tag,3 header tag), f0, f1] b=[content]
+    /// → DynSizedStructure::<H>::ref_from_slice(raw bytes) then clone_dyn
+    CloneParsed,
     /// a=[obj]
     DropObj,
     /// a=[dst, ctor, scalars..] b=[byte args..] → a public constructor, placed and checked
@@ -35,9 +38,10 @@ pub enum OpKind {
 }
 
 impl OpKind {
-    pub const ALL: [OpKind; 10] = [
+    pub const ALL: [OpKind; 11] = [
         OpKind::NewBoxed,
         OpKind::CloneDyn,
+        OpKind::CloneParsed,
         OpKind::DropObj,
         OpKind::Construct,
         OpKind::MbiNew,
@@ -51,6 +55,7 @@ impl OpKind {
         match self {
             OpKind::NewBoxed => "NewBoxed",
             OpKind::CloneDyn => "CloneDyn",
+            OpKind::CloneParsed => "CloneParsed",
             OpKind::DropObj => "DropObj",
             OpKind::Construct => "Construct",
             OpKind::MbiNew => "MbiNew",
@@ -282,6 +287,7 @@ pub fn shrink_op(op: &Op, first_scalar: usize) -> Vec<Op> {
 pub fn first_scalar_index(kind: OpKind) -> usize {
     match kind {
         OpKind::NewBoxed => 2,
+        OpKind::CloneParsed => 2,
         OpKind::Construct | OpKind::MbiSet | OpKind::HdrSet => 2,
         _ => usize::MAX,
     }
